@@ -2,8 +2,14 @@
 package main
 
 import (
+	"encoding/json"
 	"fmt"
 	"os"
+	"os/exec"
+	"strings"
+
+	"filippo.io/age/xverif/internal/rd"
+	"filippo.io/age/xverif/internal/vk"
 
 	"filippo.io/age/xverif/props/c01"
 	"filippo.io/age/xverif/props/c02"
@@ -53,6 +59,10 @@ func main() {
 		fmt.Fprintln(os.Stderr, "usage: vcheck <ID> <quick|thorough>")
 		os.Exit(2)
 	}
+	if os.Args[1] == "replay" {
+		replay(os.Args[2])
+		return
+	}
 	if os.Args[1] == "gen-corpus" {
 		c05.GenCorpus()
 		return
@@ -68,4 +78,70 @@ func main() {
 		os.Exit(2)
 	}
 	f(tier)
+}
+
+// replay re-runs the case stored in a replay file on the current /repo. Cases that carry their concrete input are
+// re-executed alone; the others are reproduced by re-running the check they came from with the recorded seed and
+// looking for the same violation signature.
+func replay(path string) {
+	b, err := os.ReadFile(path)
+	if err != nil {
+		fmt.Fprintln(os.Stderr, err)
+		os.Exit(2)
+	}
+	var r struct {
+		Property  string `json:"property"`
+		Tier      string `json:"tier"`
+		Seed      int64  `json:"seed"`
+		Signature string `json:"signature"`
+		Case      struct {
+			Check  string `json:"check"`
+			Input  []int  `json:"input"`
+			Label  string `json:"label"`
+			Kind   string `json:"kind"`
+			Data   []int  `json:"data"`
+			Writes []int  `json:"writes"`
+		} `json:"case"`
+	}
+	if err := json.Unmarshal(b, &r); err != nil {
+		fmt.Fprintln(os.Stderr, "replay file:", err)
+		os.Exit(2)
+	}
+	os.Setenv("VERIF_SEED", fmt.Sprint(r.Seed))
+	switch r.Case.Check {
+	case "C07.parse":
+		run := vk.NewRun("C07", r.Tier, "model_checking")
+		c07.CheckCase(run, vk.Bytes(r.Case.Input), nil, "replay:"+r.Case.Label)
+		finishReplay(run)
+	case "C08.read":
+		run := vk.NewRun("C08", r.Tier, "model_checking")
+		c08.CheckRead(run, vk.Bytes(r.Case.Input), nil, nil, "replay:"+r.Case.Label, rd.Kinds)
+		finishReplay(run)
+	case "C08.write":
+		run := vk.NewRun("C08", r.Tier, "model_checking")
+		c08.CheckWrite(run, vk.Bytes(r.Case.Data), r.Case.Writes, nil, "replay")
+		finishReplay(run)
+	}
+	// generic: the same check, the same seed, the same signature
+	cmd := exec.Command(os.Args[0], r.Property, r.Tier)
+	cmd.Env = os.Environ()
+	out, _ := cmd.CombinedOutput()
+	if strings.Contains(string(out), "signature: "+r.Signature) {
+		fmt.Printf("VIOLATION property=%s replay=%s\n  reproduced: %s\n", r.Property, path, r.Signature)
+		os.Exit(1)
+	}
+	if strings.Contains(string(out), "INFRASTRUCTURE ERROR") {
+		fmt.Fprintln(os.Stderr, string(out))
+		os.Exit(2)
+	}
+	fmt.Printf("not reproduced: %s\n", r.Signature)
+	os.Exit(0)
+}
+
+func finishReplay(run *vk.Run) {
+	if run.Violations() > 0 {
+		os.Exit(1)
+	}
+	fmt.Println("not reproduced")
+	os.Exit(0)
 }
